@@ -19,6 +19,9 @@ def nosite(t):
         return t
     if t and t[0] == "call" and len(t) == 5:
         return ("call", t[1], t[2], tuple(nosite(a) for a in t[3]), None)
+    if t and t[0] == "drv" and len(t) == 3 and isinstance(t[2], tuple):
+        # iteration identity: keep which loop / closure, drop the call path it was inlined through
+        return ("drv", nosite(t[1]), tuple(x for x in t[2][:3]))
     return tuple(nosite(x) if isinstance(x, (tuple, frozenset)) else x for x in t)
 
 
